@@ -933,8 +933,10 @@ def run(ck: core.Check):
                 ck.violation(b["what"], {"case": b["case"], "order_of_permuted_rows": b["perm"], "detail": b["detail"]})
         ck.search_ran = True
 
-    if ck.violations:
-        return   # a failing input is in hand: stratum self-checks below are about the unchanged tree
+    if ck.violations or ck.tie_breaks or not ck.lean.ok:
+        # a failing input is in hand, or the correspondence broke (the classification of the real code's
+        # messages may no longer apply): the stratum self-checks below are about the unchanged tree
+        return
     if gen_bugs > max(3, ck.strata.get("cases_valid", 0) // 20):
         raise core.Infra(f"generator: {gen_bugs} cases meant to be valid are rejected by the real code")
     need = ["feat_loop_items", "feat_loop_sheet_arg", "feat_include_if_data", "feat_insert_as_block", "feat_arg_sheet",
